@@ -169,26 +169,49 @@ def bfs_levels(pool, expand, spec, init_key, max_states=20000):
     return len(seen), transitions, depth, capped, payloads
 
 
+_MEMO_HOME = [None]
+
+
+def _is_memo_obj(v):
+    # objects of the module the memo roots come from (supp.name): scopes, modules and projects are not followed
+    return type(v).__module__ == _MEMO_HOME[0]
+
+
 def runtime_memo_summary(names):
     """Which memo cells of a tree of supp RuntimeName objects are filled (their CONTENT is a function of the runtime
-    object they wrap, so the set of filled cells is the state): sorted list of dotted paths."""
+    object they wrap, so the set of filled cells is the state): sorted list of dotted paths.  Nothing here knows
+    the names of the cells: a cell is any instance attribute, and the walk follows every attribute that holds a
+    supp object or a dict of supp objects (so renaming a cache attribute changes no verdict)."""
     out = []
     stack = [('', n) for n in names.values()] if isinstance(names, dict) else []
+    if stack:
+        _MEMO_HOME[0] = type(stack[0][1]).__module__
     seen = set()
     while stack:
         path, n = stack.pop()
         if id(n) in seen:
             continue
         seen.add(id(n))
-        d = getattr(n, '__dict__', {})
-        cells = sorted(k for k in d if k in ('_attrs', '_instance', 'used'))
+        d = getattr(n, '__dict__', None)
+        if not isinstance(d, dict):
+            continue
+        here = path + '.' + str(d.get('name', '?'))
+        cells = []
+        for k in sorted(d):
+            v = d[k]
+            if isinstance(v, dict) and v and all(_is_memo_obj(x) for x in v.values()):
+                cells.append(k)
+                if len(path) < 60:
+                    for x in v.values():
+                        stack.append((here, x))
+            elif _is_memo_obj(v) and not isinstance(v, type):
+                cells.append(k)
+                if len(path) < 60:
+                    stack.append((here + '()', v))
+            elif isinstance(v, bool) and v:
+                cells.append(k)
+            elif isinstance(v, dict) and not v:
+                cells.append(k)
         if cells:
-            out.append((path + '.' + str(getattr(n, 'name', '?')), tuple(cells)))
-        at = d.get('_attrs')
-        if isinstance(at, dict) and len(path) < 60:
-            for k, v in at.items():
-                stack.append((path + '.' + str(getattr(n, 'name', '?')), v))
-        inst = d.get('_instance')
-        if inst is not None:
-            stack.append((path + '.' + str(getattr(n, 'name', '?')) + '()', inst))
+            out.append((here, tuple(cells)))
     return tuple(sorted(out))
